@@ -79,14 +79,16 @@ Definition check_C05 (i:c05_in) (o:c05_out) : bool :=
     end
   else true.
 
-(* the class on which the statement is proved: at most one target shares lineage with a row of the table
-   (single target, base, purge are inside; `stamp heads` with two affected branches is outside: C05_multi_refuted) *)
+(* the class on which the statement is proved: at most one target shares lineage with a row of the table, or every
+   target that does is itself a row (single target, base, purge are inside; `stamp heads` with two affected branches is
+   outside: C05_multi_refuted — note that its two affected targets have DISJOINT lineages with the rows, so disjointness
+   is not enough: every StampStep receives all filtered heads) *)
 Definition related_targets (G:graph) (R H:list N) : list N :=
   filter (fun t => negb (is_nil (filter (lineageb G [t]) H))) R.
 Definition inclass_C05 (i:c05_in) : bool :=
   let '(G, purge, t, H) := i in
   let H0 := if purge then [] else H in
-  pre_C05 i && Nat.leb (length (related_targets G (targets_of t) H0)) 1.
+  pre_C05 i && (Nat.leb (length (related_targets G (targets_of t) H0)) 1 || subsetN (related_targets G (targets_of t) H0) H0).
 
 (* ---------- exact correspondence ---------- *)
 Definition herr_eqb5 (a b:herr) : bool :=
@@ -153,14 +155,68 @@ Definition corr_e2e (i:e2e_in) (o:e2e_out) : bool :=
   | _, _ => false
   end.
 
-(* what the engine evaluates: either kind of case *)
-Inductive c05_any := CStamp (i:c05_in) | CE2E (i:e2e_in).
+(* ---------- label targets, end to end ---------- *)
+Definition label_in := (graph * bool * ltarget * list N)%type.
+(* <label>@base: every row that shares lineage with the revision declaring the label is deleted, nothing else changes *)
+Definition label_base_ok (G:graph) (lr:N) (H rws':list N) : Prop :=
+  NoDup rws' /\ antichain G rws' /\ forall x, In x rws' <-> In x H /\ ~ lineage G [lr] x.
+Definition Label_holds (i:label_in) (o:e2e_out) : Prop :=
+  let '(G, purge, t, H) := i in
+  let H0 := e2e_start purge H in
+  match resolve_label G t with
+  | Ok ([[lr; h]], Some [h']) =>       (* <label>@head resolved to the head h: the statement for the single target h *)
+      pre_C05 (G, false, TIds [h], H0) = true -> exists rws', o = Ok rws' /\ stamped_ok G (TIds [h]) H0 rws'
+  | Ok ([[lr]], None) =>
+      pre_C05 (G, false, TBase, H0) = true -> exists rws', o = Ok rws' /\ label_base_ok G lr H0 rws'
+  | _ => True                           (* the label does not resolve (unknown label, several heads): nothing is claimed *)
+  end.
+Definition check_label (i:label_in) (o:e2e_out) : bool :=
+  let '(G, purge, t, H) := i in
+  let H0 := e2e_start purge H in
+  match resolve_label G t with
+  | Ok ([[lr; h]], Some [h']) =>
+      if pre_C05 (G, false, TIds [h], H0) then
+        match o with Ok rws' => stamped_okb G (TIds [h]) H0 rws' | Err _ => false end
+      else true
+  | Ok ([[lr]], None) =>
+      if pre_C05 (G, false, TBase, H0) then
+        match o with
+        | Ok rws' => nodupb rws' && antichainb G rws' && seteqN rws' (filter (fun x => negb (lineageb G [lr] x)) H0)
+        | Err _ => false
+        end
+      else true
+  | _ => true
+  end.
+Definition model_label (i:label_in) : e2e_out := let '(G, purge, t, H) := i in stamp_label G purge t H.
+Definition corr_label (i:label_in) (o:e2e_out) : bool :=
+  (let '(G, _, _, _) := i in ndeps_okb G) &&
+  match model_label i, o with
+  | Ok a, Ok b => permb a b
+  | Err e, Err e' => herr_eqb5 e e'
+  | _, _ => false
+  end.
+(* the class on which <label>@head is right: no row shares lineage with the labelled revision only *)
+Definition label_class (i:label_in) : bool :=
+  let '(G, purge, t, H) := i in
+  match resolve_label G t with
+  | Ok ([[lr; h]], Some _) => forallb (fun x => negb (lineageb G [lr] x) || lineageb G [h] x) (e2e_start purge H)
+  | _ => true
+  end.
+
+(* what the engine evaluates: any kind of case *)
+Inductive c05_any := CStamp (i:c05_in) | CE2E (i:e2e_in) | CLabel (i:label_in).
 Inductive c05_anyout := OStamp (o:c05_out) | OE2E (o:e2e_out).
 Definition C05_any_holds (i:c05_any) (o:c05_anyout) : Prop :=
-  match i, o with CStamp i, OStamp o => C05_holds i o | CE2E i, OE2E o => E2E_holds i o | _, _ => False end.
+  match i, o with
+  | CStamp i, OStamp o => C05_holds i o | CE2E i, OE2E o => E2E_holds i o | CLabel i, OE2E o => Label_holds i o
+  | _, _ => False end.
 Definition check_C05_any (i:c05_any) (o:c05_anyout) : bool :=
-  match i, o with CStamp i, OStamp o => check_C05 i o | CE2E i, OE2E o => check_e2e i o | _, _ => false end.
+  match i, o with
+  | CStamp i, OStamp o => check_C05 i o | CE2E i, OE2E o => check_e2e i o | CLabel i, OE2E o => check_label i o
+  | _, _ => false end.
 Definition corr_C05_any (i:c05_any) (o:c05_anyout) : bool :=
-  match i, o with CStamp i, OStamp o => corr_C05 i o | CE2E i, OE2E o => corr_e2e i o | _, _ => false end.
+  match i, o with
+  | CStamp i, OStamp o => corr_C05 i o | CE2E i, OE2E o => corr_e2e i o | CLabel i, OE2E o => corr_label i o
+  | _, _ => false end.
 Definition model_C05_any (i:c05_any) : c05_anyout :=
-  match i with CStamp i => OStamp (model_C05 i) | CE2E i => OE2E (model_e2e i) end.
+  match i with CStamp i => OStamp (model_C05 i) | CE2E i => OE2E (model_e2e i) | CLabel i => OE2E (model_label i) end.
